@@ -540,8 +540,22 @@ func linearizabilityHistory(run *evid.Run, idx int, overlaps map[string]int) {
 			switch k := rng.IntN(24); {
 			case k < 4:
 				mf := []byte(fmt.Sprintf("manifest h%d g%d #%d", idx, g, i))
-				own = append(own, mf)
-				op = &model.Op{Kind: "PushManifest", Repo: "r", Tag: tag, Data: mf, MediaType: "application/x-opaque"}
+				mt := "application/x-opaque"
+				if rng.IntN(4) == 0 {
+					// bytes the repository already has (the initial manifest, or one of this goroutine's own), pushed
+					// again under the other tag (or none) and stated to be of another type
+					mf = m0
+					if len(own) > 0 && rng.IntN(2) == 0 {
+						mf = own[rng.IntN(len(own))]
+					}
+					mt = "application/x-opaque-retyped"
+					if rng.IntN(3) == 0 {
+						tag = ""
+					}
+				} else {
+					own = append(own, mf)
+				}
+				op = &model.Op{Kind: "PushManifest", Repo: "r", Tag: tag, Data: mf, MediaType: mt}
 			case k < 5:
 				// image manifest referencing B0 (fails legitimately if B0 is deleted first)
 				mf := []byte(fmt.Sprintf(`{"schemaVersion":2,"mediaType":%q,"config":{"mediaType":"application/octet-stream","digest":%q,"size":%d},"layers":[],"annotations":{"id":"h%d g%d #%d"}}`, model.MTImage, model.Digest(b0), len(b0), idx, g, i))
